@@ -308,7 +308,17 @@ func (vc *VC) evalBuiltin(st *State, name string, call *ast.CallExpr) Val {
 
 func (vc *VC) doPanic(st *State, pos token.Pos, what string) {
 	if vc.fn != nil && vc.fn.Spec != nil && vc.fn.Spec.Flags["may_panic"] {
-		// declared: the path simply ends
+		// declared: the path ends here; postconditions named always_* must hold on this exit too
+		if !vc.specMode && vc.dry == 0 && vc.callDepth == 0 || (!vc.specMode && vc.dry == 0 && vc.panicPosts) {
+			b := vc.bindSpec(vc.fn.Spec, vc.specRecv, vc.specArgs, nil)
+			for _, c := range vc.fn.Spec.Clauses {
+				if c.Kind == "ensures" && strings.HasPrefix(c.Name, "always_") {
+					t := vc.evalClause(st, vc.fn.Spec, c.Expr, vc.entry)
+					vc.oblige(st, "post", c.Name+".onpanic", c.Pos, t, "postcondition "+c.Name+" on the panicking exit")
+				}
+			}
+			vc.unbind(b)
+		}
 	} else if !vc.specMode {
 		vc.oblige(st, "panic", "", pos, "false", what+" must be unreachable")
 	}
